@@ -10,7 +10,7 @@ from .. import tlc
 from ..common import Report, pmap
 from ..enc import iso, lat
 
-FAMILY = r"^(s2d|xy2ll|roundtrip|llrelease|llrecord)\.|^run\.crashed"
+FAMILY = r"^lonlat\.|^grid\.onland|^(s2d|xy2ll|roundtrip|llrelease|llrecord)\.|^run\.crashed"
 L = 720720
 LONB, LATB = 5.0, 60.0
 
@@ -77,6 +77,17 @@ def grid_trace(sc):
             a, o1 = lat(lo[k] - LONB, 1024 * Q * Q)
             b, o2 = lat(la[k] - LATB, 1024 * Q * Q)
             ev.append(dict(ev="xy2ll", x=sc["xq"][k], y=sc["yq"][k], Q=Q, lon=a, lat=b, off=bool(o1 or o2)))
+        # the Grid's own lon / lat look-up: bilinear (the same numbers as xy2ll) and nearest cell
+        lob, lab = g.lonlat(X, Y)
+        lon_n, lat_n = g.lonlat(X, Y, method="nearest")
+        for k in range(len(X)):
+            a, o1 = lat(lob[k] - LONB, 1024 * Q * Q)
+            b, o2 = lat(lab[k] - LATB, 1024 * Q * Q)
+            ev.append(dict(ev="xy2ll", x=sc["xq"][k], y=sc["yq"][k], Q=Q, lon=a, lat=b, off=bool(o1 or o2)))
+            a, o1 = lat(lon_n[k] - LONB, 1024)
+            b, o2 = lat(lat_n[k] - LATB, 1024)
+            ev.append(dict(ev="llnearest", x=sc["xq"][k], y=sc["yq"][k], Q=Q, lon=a, lat=b, off=bool(o1 or o2)))
+        ev.append(dict(ev="landsea", land=[bool(v) for v in g.onland(X, Y)], sea=[bool(v) for v in g.atsea(X, Y)]))
         # round trip at off-lattice positions
         XR = np.array(sc["xr"], float) / 65536.0
         YR = np.array(sc["yr"], float) / 65536.0
